@@ -9,7 +9,8 @@
   overrides which knob, git's quote_c_style) is written by hand from git's documentation / quote.c and is
   validated end-to-end against the installed git (vlib/props/c12.py), not proved.
 
-  String constants are explicit `List Char` literals (string literals do not reduce in the kernel).
+  String constants are explicit `List Char` literals (string literals do not reduce in the kernel); this file is
+  written as /verif/extract/Profile.lean.in (double-angle-bracket markers) and expanded by /verif/extract/expand_charlits.py.
 -/
 import GitAiModel.Extracted.ProfileTables
 namespace GitAi.Profile
@@ -150,9 +151,9 @@ def Affects : Knob → OutputKind → Bool
   | .diffIndentHeuristic, k => k == .patch || k == .blamePorcelain || k == .blameHuman
   | .diffRelative, k => k == .patch || k == .numstat || k == .numstatZ || k == .names || k == .namesZ
   | .quotePath, k => k == .patch || k == .numstat || k == .names || k == .blamePorcelain
-      || k == .blameHuman || k == .statusHuman || k == .commitHuman
+      || k == .blameHuman || k == .statusHuman || k == .commitHuman || k == .grepOut
   | .pager, _ => false
-  | .blameDisplay, k => k == .blameHuman
+  | .blameDisplay, k => k == .blameHuman   -- (porcelain: only the display-only `boundary` marker follows blame.showRoot)
   | .notesDisplayRef, k => k == .commitHuman
   | .coreNotesRef, k => k == .notes || k == .commitHuman
   | .statusShowUntracked, k => k == .statusV2Z || k == .statusHuman
@@ -171,7 +172,7 @@ def Neutralises (f : Str) : Knob → Bool
   | .diffIndentHeuristic => f == ['-', '-', 'i', 'n', 'd', 'e', 'n', 't', '-', 'h', 'e', 'u', 'r', 'i', 's', 't', 'i', 'c'] || f == ['-', '-', 'n', 'o', '-', 'i', 'n', 'd', 'e', 'n', 't', '-', 'h', 'e', 'u', 'r', 'i', 's', 't', 'i', 'c']
   | .diffInterHunkContext => startsWith ['-', '-', 'i', 'n', 't', 'e', 'r', '-', 'h', 'u', 'n', 'k', '-', 'c', 'o', 'n', 't', 'e', 'x', 't', '='] f
   | .diffRelative => f == ['-', '-', 'n', 'o', '-', 'r', 'e', 'l', 'a', 't', 'i', 'v', 'e']
-  | .quotePath => f == ['-', 'z']
+  | .quotePath => f == ['-', 'z'] || f == ['r', 'e', 'f', 's', '/', 'n', 'o', 't', 'e', 's', '/', 'a', 'i']   -- grep over the notes tree: paths are hex fan-out names, never quoted
   | .pager => f == ['-', '-', 'n', 'o', '-', 'p', 'a', 'g', 'e', 'r']
   | .blameDisplay => f == ['-', '-', 'p', 'o', 'r', 'c', 'e', 'l', 'a', 'i', 'n'] || f == ['-', '-', 'l', 'i', 'n', 'e', '-', 'p', 'o', 'r', 'c', 'e', 'l', 'a', 'i', 'n'] || f == ['-', '-', 'i', 'n', 'c', 'r', 'e', 'm', 'e', 'n', 't', 'a', 'l']
   | .notesDisplayRef => f == ['-', '-', 'n', 'o', '-', 'n', 'o', 't', 'e', 's'] || startsWith ['-', '-', 'f', 'o', 'r', 'm', 'a', 't', '='] f || startsWith ['-', '-', 'p', 'r', 'e', 't', 't', 'y', '='] f
@@ -187,6 +188,22 @@ def ParserHandles : OutputKind → Knob → Bool
   | .blamePorcelain, .quotePath => true -- `filename` header goes through unescape_git_path
   | .statusV2Z, .diffRenames => true    -- type-2 records are parsed (path + original path)
   | _, _ => false
+
+/-- spellings that contradict a pinned option (from git's diff-options documentation): every one of them
+    must be taken out by `strip_profile_conflicts` of a profile that pins the option -/
+def conflictForms (o : Str) : List Str :=
+  if o == ['-', '-', 'n', 'o', '-', 'e', 'x', 't', '-', 'd', 'i', 'f', 'f'] then [['-', '-', 'e', 'x', 't', '-', 'd', 'i', 'f', 'f']]
+  else if o == ['-', '-', 'n', 'o', '-', 't', 'e', 'x', 't', 'c', 'o', 'n', 'v'] then [['-', '-', 't', 'e', 'x', 't', 'c', 'o', 'n', 'v']]
+  else if o == ['-', '-', 'n', 'o', '-', 'c', 'o', 'l', 'o', 'r'] then [['-', '-', 'c', 'o', 'l', 'o', 'r'], ['-', '-', 'c', 'o', 'l', 'o', 'r', '=', 'a', 'l', 'w', 'a', 'y', 's'], ['-', '-', 'c', 'o', 'l', 'o', 'r', '=', 'a', 'u', 't', 'o']]
+  else if o == ['-', '-', 'n', 'o', '-', 'r', 'e', 'l', 'a', 't', 'i', 'v', 'e'] then [['-', '-', 'r', 'e', 'l', 'a', 't', 'i', 'v', 'e'], ['-', '-', 'r', 'e', 'l', 'a', 't', 'i', 'v', 'e', '=', 's', 'u', 'b', '/', 'd', 'i', 'r']]
+  else if o == ['-', '-', 's', 'r', 'c', '-', 'p', 'r', 'e', 'f', 'i', 'x', '=', 'a', '/'] then [['-', '-', 's', 'r', 'c', '-', 'p', 'r', 'e', 'f', 'i', 'x', '=', 'x', '/'], ['-', '-', 's', 'r', 'c', '-', 'p', 'r', 'e', 'f', 'i', 'x', '='], ['-', '-', 's', 'r', 'c', '-', 'p', 'r', 'e', 'f', 'i', 'x'], ['-', '-', 'n', 'o', '-', 'p', 'r', 'e', 'f', 'i', 'x']]
+  else if o == ['-', '-', 'd', 's', 't', '-', 'p', 'r', 'e', 'f', 'i', 'x', '=', 'b', '/'] then [['-', '-', 'd', 's', 't', '-', 'p', 'r', 'e', 'f', 'i', 'x', '=', 'y', '/'], ['-', '-', 'd', 's', 't', '-', 'p', 'r', 'e', 'f', 'i', 'x', '='], ['-', '-', 'd', 's', 't', '-', 'p', 'r', 'e', 'f', 'i', 'x'], ['-', '-', 'n', 'o', '-', 'p', 'r', 'e', 'f', 'i', 'x']]
+  else if o == ['-', '-', 'd', 'i', 'f', 'f', '-', 'a', 'l', 'g', 'o', 'r', 'i', 't', 'h', 'm', '=', 'd', 'e', 'f', 'a', 'u', 'l', 't'] then [['-', '-', 'd', 'i', 'f', 'f', '-', 'a', 'l', 'g', 'o', 'r', 'i', 't', 'h', 'm', '=', 'p', 'a', 't', 'i', 'e', 'n', 'c', 'e'], ['-', '-', 'd', 'i', 'f', 'f', '-', 'a', 'l', 'g', 'o', 'r', 'i', 't', 'h', 'm', '=', 'h', 'i', 's', 't', 'o', 'g', 'r', 'a', 'm'], ['-', '-', 'd', 'i', 'f', 'f', '-', 'a', 'l', 'g', 'o', 'r', 'i', 't', 'h', 'm', '=', 'm', 'i', 'n', 'i', 'm', 'a', 'l']]
+  else if o == ['-', '-', 'i', 'n', 'd', 'e', 'n', 't', '-', 'h', 'e', 'u', 'r', 'i', 's', 't', 'i', 'c'] then [['-', '-', 'n', 'o', '-', 'i', 'n', 'd', 'e', 'n', 't', '-', 'h', 'e', 'u', 'r', 'i', 's', 't', 'i', 'c']]
+  else if o == ['-', '-', 'i', 'n', 't', 'e', 'r', '-', 'h', 'u', 'n', 'k', '-', 'c', 'o', 'n', 't', 'e', 'x', 't', '=', '0'] then [['-', '-', 'i', 'n', 't', 'e', 'r', '-', 'h', 'u', 'n', 'k', '-', 'c', 'o', 'n', 't', 'e', 'x', 't', '=', '5']]
+  else if o == ['-', '-', 'n', 'o', '-', 'r', 'e', 'n', 'a', 'm', 'e', 's'] then [['-', 'M'], ['-', 'M', '9', '0', '%'], ['-', 'C'], ['-', 'C', '7', '5', '%'], ['-', '-', 'f', 'i', 'n', 'd', '-', 'r', 'e', 'n', 'a', 'm', 'e', 's'], ['-', '-', 'f', 'i', 'n', 'd', '-', 'r', 'e', 'n', 'a', 'm', 'e', 's', '=', '5', '0', '%'],
+                                     ['-', '-', 'f', 'i', 'n', 'd', '-', 'c', 'o', 'p', 'i', 'e', 's'], ['-', '-', 'f', 'i', 'n', 'd', '-', 'c', 'o', 'p', 'i', 'e', 's', '=', '5', '0', '%'], ['-', '-', 'f', 'i', 'n', 'd', '-', 'c', 'o', 'p', 'i', 'e', 's', '-', 'h', 'a', 'r', 'd', 'e', 'r']]
+  else []
 
 def hasFlag (flags : List Str) (f : Str) : Bool := flags.contains f
 
